@@ -185,7 +185,7 @@ class Obligation:
                 "detail": self.detail[-2000:]}
 
 
-def build_property(prop, extract=True, jobs=8):
+def build_property(prop, extract=True, jobs=8, runners=(), facts=("tables", "parser")):
     """Regenerate facts, build the cone of Properties/<prop>.vo and the runner.
     Returns a list of Obligation (translator, forbidden vernacular, each
     theorem with its axioms, the runner build)."""
@@ -195,7 +195,14 @@ def build_property(prop, extract=True, jobs=8):
         rc, out = sh(f"{PY} {VERIF}/tr/gen_facts.py", timeout=300,
                      env=dict(os.environ, PYTHONPATH=REPO, PYTHONDONTWRITEBYTECODE="1",
                               PYTHONHASHSEED="0"))
-        obs.append(Obligation("translator tr/gen_facts.py", "translator", rc == 0, out))
+        try:
+            status = json.load(open(os.path.join(BUILD, "facts_status.json")))
+        except Exception:  # noqa
+            status = {}
+        for fact in facts:
+            st = status.get(fact, "plugin did not run: " + out[-500:])
+            obs.append(Obligation(f"translator tr/facts_{fact}.py", "translator",
+                                  rc == 0 and st == "ok", "" if st == "ok" else st))
         # 2. forbidden vernacular anywhere in the development
         bad = []
         for f in coq_sources():
@@ -208,9 +215,10 @@ def build_property(prop, extract=True, jobs=8):
         # 3. make
         ensure_makefile()
         targets = [f"Properties/{prop}.vo"]
-        if extract:
-            targets.append(f"Extract/Ex{prop}.vo")
-            os.makedirs(os.path.join(VERIF, "ocaml", prop), exist_ok=True)
+        exes = ([prop] if extract else []) + list(runners)
+        for x in exes:
+            targets.append(f"Extract/Ex{x}.vo")
+            os.makedirs(os.path.join(VERIF, "ocaml", x), exist_ok=True)
         rc, out = sh(f"timeout 1500 make -j{jobs} {' '.join(targets)}", cwd=COQ, timeout=1600)
         build_ok = rc == 0
         err = ""
@@ -249,10 +257,10 @@ def build_property(prop, extract=True, jobs=8):
             for n in names:
                 obs.append(Obligation(n, "theorem", False, "cone did not build"))
         # 5. runner
-        if extract and build_ok:
-            d = os.path.join(VERIF, "ocaml", prop)
+        for x in (exes if build_ok else []):
+            d = os.path.join(VERIF, "ocaml", x)
             ml = os.path.join(d, "model.ml")
-            exe = os.path.join(BIN, "model_" + prop)
+            exe = os.path.join(BIN, "model_" + x)
             drv = os.path.join(VERIF, "ocaml", "driver.ml")
             need = (not os.path.exists(exe)
                     or os.path.getmtime(exe) < max(os.path.getmtime(ml), os.path.getmtime(drv)))
@@ -261,7 +269,7 @@ def build_property(prop, extract=True, jobs=8):
                 rc, out = sh(f"cp {drv} {d}/driver.ml && cd {d} && "
                              f"ocamlfind ocamlopt -w -a model.mli model.ml driver.ml -o {exe}",
                              timeout=600)
-                obs.append(Obligation("ocamlopt model runner", "build", rc == 0, out))
+                obs.append(Obligation(f"ocamlopt model runner {x}", "build", rc == 0, out))
     return obs
 
 
